@@ -6,6 +6,10 @@ Tr == ndJsonDeserialize("trace.ndjson")
 VARIABLES l, bad, cnt
 ClauseIds == {"C18_backoff", "C18_sweep", "C18_timing", "C18_flags_uri", "C18_flags_qps", "C18_flags_type", "C18_flags_drift", "C18_hash", "C18_nopanic"}
 
+\* violations are collected up to a cap, but the first violation of every clause is always kept: a flood of violations of one
+\* clause (another property's) must not hide the only violation of another
+KeepBad(b, v) == Len(b) < 300 \/ \E c \in v : \A i \in DOMAIN b : c \notin b[i].ids
+
 TInit == l = 1 /\ bad = <<>> /\ cnt = [c \in ClauseIds |-> 0] /\ done = FALSE
 
 Checks(ev) ==
@@ -29,7 +33,7 @@ Step ==
      \E cs \in {Checks(ev) \cup {[id |-> "C18_nopanic", ok |-> ~ev.panic]}} :
        LET v == {c.id : c \in {x \in cs : ~x.ok}}
            tags == IF ev.kind = "flags" /\ ev.qps = "tiny" THEN {"qps-tiny"} ELSE {}
-       IN /\ bad' = IF v # {} /\ Len(bad) < 300 THEN Append(bad, [l |-> l, sid |-> ev.kind, i |-> ev.id, ids |-> v, tags |-> tags]) ELSE bad
+       IN /\ bad' = IF v # {} /\ KeepBad(bad, v) THEN Append(bad, [l |-> l, sid |-> ev.kind, i |-> ev.id, ids |-> v, tags |-> tags]) ELSE bad
           /\ cnt' = [c \in ClauseIds |-> cnt[c] + (IF c \in {x.id : x \in cs} THEN 1 ELSE 0)]
   /\ l' = l + 1
   /\ UNCHANGED done
